@@ -11,6 +11,7 @@ Core Lean only.
 -/
 import CBV.Model.Common
 import CBV.Gen.Tables
+import CBV.Gen.TC19
 
 namespace CBV.C19
 
